@@ -2,8 +2,8 @@
 use std::ops::{Index, IndexMut};
 
 use chemical_elements::{
-    ChemicalComposition, ChemicalCompositionMap, ChemicalCompositionVec, ElementSpecification,
-    PERIODIC_TABLE,
+    ChemicalComposition, ChemicalCompositionLike, ChemicalCompositionMap, ChemicalCompositionVec,
+    ElementSpecification, PERIODIC_TABLE,
 };
 
 use crate::util::guarded;
@@ -39,6 +39,33 @@ fn micro(x: f64) -> String {
     } else {
         format!("{x}")
     }
+}
+
+// ---- the same operations through the public trait `ChemicalCompositionLike` (generic code sees only these) ----
+fn t_get<'i, C: ChemicalCompositionLike<'i, 'static>>(c: &C, k: &Spec) -> i32 {
+    ChemicalCompositionLike::get(c, k)
+}
+fn t_set<'i, C: ChemicalCompositionLike<'i, 'static>>(c: &mut C, k: Spec, v: i32) {
+    ChemicalCompositionLike::set(c, k, v)
+}
+fn t_inc<'i, C: ChemicalCompositionLike<'i, 'static>>(c: &mut C, k: Spec, v: i32) {
+    ChemicalCompositionLike::inc(c, k, v)
+}
+fn t_fmass<'i, C: ChemicalCompositionLike<'i, 'static>>(c: &mut C) -> f64 {
+    ChemicalCompositionLike::fmass(c)
+}
+fn t_mul<'i, C: ChemicalCompositionLike<'i, 'static>>(c: &mut C, k: i32) {
+    ChemicalCompositionLike::_mul_by(c, k)
+}
+fn t_itm<'i, C: ChemicalCompositionLike<'i, 'static>>(c: &mut C, f: fn(i32) -> i32) {
+    ChemicalCompositionLike::iter_mut(c).for_each(|(_, v)| *v = f(*v))
+}
+/// (mass, len, is_empty, sorted entries) as generic code sees them
+fn t_view<'i, C: ChemicalCompositionLike<'i, 'static>>(c: &C) -> (f64, usize, bool, Vec<(String, u16, i32)>) {
+    let mut v: Vec<(String, u16, i32)> =
+        ChemicalCompositionLike::iter(c).map(|(k, v)| (k.element.symbol.clone(), k.isotope, *v)).collect();
+    v.sort();
+    (ChemicalCompositionLike::mass(c), ChemicalCompositionLike::len(c), ChemicalCompositionLike::is_empty(c), v)
 }
 
 macro_rules! each {
@@ -85,7 +112,12 @@ impl Reg {
             ents.iter().map(|(s, i, v)| format!("{s}:{i}={v}")).collect::<Vec<_>>().join(",")
         };
         let (cached, mass, calc, len, empty) = each!(self, c => (c.has_mass_cached(), c.mass(), c.calc_mass(), c.len(), c.is_empty()));
-        let len_s = if empty == (len == 0) { len.to_string() } else { format!("{len}!empty={empty}") };
+        let mut len_s = if empty == (len == 0) { len.to_string() } else { format!("{len}!empty={empty}") };
+        // the view through the trait must be the view through the inherent methods
+        let (tm, tl, te, tv) = each!(self, c => t_view(c));
+        if tm.to_bits() != mass.to_bits() || tl != len || te != empty || tv != ents {
+            len_s.push_str("!trait-view-differs");
+        }
         format!("{}|{}|{}|{}|{}|{}", self.form(), cached as u8, micro(mass), micro(calc), len_s, e)
     }
     fn as_enum(&self) -> ChemicalComposition<'static> {
@@ -207,6 +239,23 @@ fn step(regs: &mut Vec<Reg>, op: &str) -> Option<Option<i64>> {
     let w: Vec<&str> = op.split_whitespace().collect();
     let r = |i: usize| -> Option<usize> { w.get(i)?.parse().ok() };
     let n = |i: usize| -> Option<i32> { w.get(i)?.parse().ok() };
+    // `op@t`: the same operation dispatched through the trait `ChemicalCompositionLike`
+    if let Some(name) = w.first()?.strip_suffix("@t") {
+        return match name {
+            "set" => { let (i, k, v) = (r(1)?, key(w[2])?, n(3)?); each!(&mut regs[i], c => t_set(c, k, v)); Some(None) }
+            "inc" => { let (i, k, v) = (r(1)?, key(w[2])?, n(3)?); each!(&mut regs[i], c => t_inc(c, k, v)); Some(None) }
+            "get" => { let (i, k) = (r(1)?, key(w[2])?); Some(Some(each!(&regs[i], c => t_get(c, &k)) as i64)) }
+            "fmass" => { let i = r(1)?; let m = each!(&mut regs[i], c => t_fmass(c)); Some(Some((m * 1e6).round() as i64)) }
+            "muli" => { let (i, k) = (r(1)?, n(2)?); each!(&mut regs[i], c => t_mul(c, k)); Some(None) }
+            "itm" => {
+                let i = r(1)?;
+                let f: fn(i32) -> i32 = match w[2] { "dbl" => |x| 2 * x, "neg" => |x| -x, "inc1" => |x| x + 1, _ => |_| 0 };
+                each!(&mut regs[i], c => t_itm(c, f));
+                Some(None)
+            }
+            _ => None,
+        };
+    }
     match *w.first()? {
         "new" => {
             let i = r(1)?;
